@@ -165,7 +165,7 @@ pub fn decode_inst(t: &Tape, cfg: &GenCfg, prefix: &str) -> Inst {
     // ---- parameters
     // minimalDuration may exceed a whole detour (dead-head there, short trip, dead-head back):
     // then a same-location turnaround is the slowest connection of all
-    let shunt_min = if cfg.small_grid { choose(f(p, 1), &[0u64, 600, 1800]) } else { choose(f(p, 1), &[0u64, 600, 60, 1, 1800, 3600]) };
+    let shunt_min = if cfg.small_grid { [0u64, 600, 1800][pick_w(f(p, 1), &[3, 3, 1])] } else { [0u64, 600, 60, 1, 1800, 3600][pick_w(f(p, 1), &[3, 3, 2, 2, 1, 1])] };
     let shunt_dh = if cfg.small_grid { choose(f(p, 2), &[0u64, 600]) } else { choose(f(p, 2), &[0u64, 300, 60]) };
     let forbid = match pick_w(f(p, 0), &[5, 2, 2]) {
         0 => None,
